@@ -586,7 +586,39 @@ def r13_lexical_eval(c, facts, rule='C08.R13'):
         c.ok(R, {'lookup_binding': 'reached from eval_binding only', 'callers': sorted(f.qname for f in callers)})
 
 
+def map_write_policy(facts, fn, key_ty):
+    """how `fn` writes a HashMap whose key type contains `key_ty`: 'last' (an unconditional insert: a second binding of a
+    name replaces the first), 'first' (entry / or_insert / contains_key-guarded insert keep the first), None (no write)"""
+    nfn = facts.normalised(fn)
+    ins = [(b, t) for b, t in P.call_blocks(nfn, 'HashMap::insert', 'IndexMap::insert') if t['args'] and key_ty in t['args'][0].get('ty', '')]
+    other = [(b, t) for b, t in nfn.calls() if re.search(r'(HashMap|hash_map|IndexMap|indexmap)\b.*::(entry|or_insert|or_insert_with|try_insert|contains_key)$|VacantEntry.*::insert$|OccupiedEntry', P.strip((callee_of(t) or {}).get('def', '')))
+             and any(key_ty in a.get('ty', '') for a in t['args'][:1])]
+    if other:
+        return 'first'
+    if not ins:
+        return None
+    return 'last'
+
+
+def r14_same_winner(c, facts, rule='C08.R14'):
+    """two binders of one name in one scope (`let pick x x = x`): the resolver and the evaluator must agree on which one
+    a use denotes - both tables are written by a plain insert (the later binder replaces the earlier one)"""
+    R = c.rule(rule, 'SAME-WINNER: the resolver\'s scope (Env::declare) and the evaluator\'s scope (eval_application) resolve a name bound twice in one scope to the same binder')
+    decl = c.anchor(R, 'oal_compiler::env::Env::declare')
+    app = c.anchor(R, 'oal_compiler::eval::eval_application')
+    p1 = map_write_policy(facts, decl, 'Entry')
+    p2 = map_write_policy(facts, app, 'Ident')
+    inst = {'Env::declare': p1, 'eval_application': p2}
+    if p1 is None or p2 is None:
+        c.bad(R, 'scope-write-not-found', 'cannot find the map write of %s' % ('Env::declare' if p1 is None else 'eval_application'), **inst)
+    elif p1 != p2:
+        c.bad(R, 'binder-winner-differs:resolver=%s:evaluator=%s' % (p1, p2), 'of two binders of one name in one scope the resolver keeps the %s and the evaluator the %s: a use is type-checked (and renamed, and looked up by the editor) against one parameter and evaluated with the other' % (p1, p2), **inst)
+    else:
+        c.ok(R, inst)
+
+
 def run(c, facts):
+    c.run(r14_same_winner, facts)
     c.run(r13_lexical_eval, facts)
     import c10
     import c09
